@@ -40,6 +40,8 @@ class FieldCase:
             base[wire] = 1
         elif kind == "decimal":
             base[wire] = 0.5
+        elif kind == "int_array":
+            base[wire] = [1, 2]
         elif kind in ("literal", "enum_str"):
             base[wire] = detail["ok"]
         elif kind == "enum_int":
@@ -87,6 +89,16 @@ def field_cases():
                 continue
             a = alts[0]
             direct = t["kind"] != "or"
+            if a["kind"] == "array" and a["element"]["kind"] == "base" and a["element"]["name"] in ("integer", "uinteger"):
+                cid = "f%d" % n
+                n += 1
+                try:
+                    out[cid] = FieldCase(cid, name, cls, p["name"], attr, p, "int_array", {"lo": 0 if a["element"]["name"] == "uinteger" else specmodel.INT_MIN, "hi": specmodel.INT_MAX, "base": a["element"]["name"]})
+                    out[cid].direct = direct
+                except Exception as e:
+                    out[cid] = None
+                    PROBLEMS.append(("field-case", "%s.%s" % (name, p["name"]), "%s: %s" % (type(e).__name__, str(e)[:120])))
+                continue
             if a["kind"] == "base" and a["name"] in ("integer", "uinteger"):
                 kind, detail = "int", {"lo": 0 if a["name"] == "uinteger" else specmodel.INT_MIN, "hi": specmodel.INT_MAX, "base": a["name"]}
             elif a["kind"] == "base" and a["name"] == "decimal":
@@ -145,6 +157,25 @@ def conv_accepts(cid, value):
         _not_a_verdict(e)
         return (False, None)
     return (True, getattr(obj, c.attr))
+
+
+def typed_as_int(v):
+    """a converted integer: an int and not a float (bool is excluded by the callers' inputs)"""
+    return isinstance(v, int) and not isinstance(v, float)
+
+
+def int_from_double_ok(cid, x):
+    """an integer given as an integral JSON double (3.0): if the converter accepts it, the attribute holds the int"""
+    ok, v = conv_accepts(cid, float(x))
+    return (not ok) or (typed_as_int(v) and v == x)
+
+
+def int_array_from_doubles_ok(cid, x, y):
+    """elements of an integer array given as int / integral double: accepted => every element is a converted int"""
+    ok, v = conv_accepts(cid, [x, float(y), float(x)])
+    if not ok:
+        return True
+    return len(v) == 3 and typed_as_int(v[0]) and typed_as_int(v[1]) and typed_as_int(v[2]) and v[0] == x and v[1] == y and v[2] == x
 
 
 def ctor_accepts(cid, value):
@@ -369,6 +400,96 @@ def removal_cases(max_depth=2):
                 PROBLEMS.append(("removal-case", "%s via %s" % (name, chain), "%s: %s" % (type(e).__name__, str(e)[:120])))
     _REMOVAL = out
     return out
+
+
+_ABSENT = None
+
+
+def special_absent_cases(max_depth=2):
+    """class K reached through a union; `wires` = its non-optional null-admitting / string-literal properties whose
+    absence leaves a document that is valid for the root when such members may be absent (C10's parse clause)"""
+    global _ABSENT
+    if _ABSENT is not None:
+        return _ABSENT
+    L = _lsp()
+    parents = _parents()
+    out = collections.OrderedDict()
+    for name, sc in classlemmas.spec_classes().items():
+        sp = [p["name"] for p in sc["props"] if not p.get("optional") and SPEC.special(p) and not p.get("envelope") and not p.get("always")]
+        if not sp:
+            continue
+        template = classlemmas.SPEC_sample_for(_Case(name), maximal=False)
+        seen = set()
+        for chain in _chains(parents, name, max_depth):
+            if not any("or" in w for (_, _, w) in chain):
+                continue
+            k2 = tuple((a, b) for a, b, _ in chain)
+            if k2 in seen:
+                continue
+            seen.add(k2)
+            try:
+                built = _build(L, template, [], chain)
+                if built is None:
+                    continue
+                root, cls, value, path, label = built
+                if _hand_written_union(L, chain):
+                    continue  # a hook that dispatches on the members it chooses to is an explicit decision of the package
+                rc = RemovalCase("a%d" % len(out), name, root, cls, value, path, label, [])
+                rc.hook(value, cls)
+                rc.wires = [w for w in sp if w in template and _valid_when_special_absent(root, removal_json(rc, w))]
+                if rc.wires:
+                    out[rc.id] = rc
+            except Exception as e:
+                PROBLEMS.append(("absent-case", "%s via %s" % (name, chain), "%s: %s" % (type(e).__name__, str(e)[:120])))
+    _ABSENT = out
+    return out
+
+
+def _hand_written_union(L, chain):
+    """is the union on the chain resolved by a function of lsprotocol._hooks (rather than by cattrs' own disambiguation)?"""
+    import typing
+
+    conv = real_converter()
+    for pname, wire, wrap in chain:
+        if "or" not in wrap:
+            continue
+        cls = getattr(L, pname, None)
+        f = {x.name: x for x in attrs.fields(cls)}.get(specmodel.snake(wire)) if cls is not None and attrs.has(cls) else None
+        if f is None:
+            return True  # cannot tell: leave the position out
+        todo = [f.type]
+        while todo:
+            a = todo.pop()
+            if typing.get_origin(a) is typing.Union:
+                try:
+                    h = conv._structure_func.dispatch(a)
+                except Exception:
+                    return True
+                if getattr(h, "__module__", "") == "lsprotocol._hooks":
+                    return True
+            todo.extend(x for x in typing.get_args(a) if x is not type(None))
+    return False
+
+
+def _valid_when_special_absent(root_name, j):
+    props = classlemmas.spec_classes()[root_name]["props"]
+    t = {"kind": "literal", "value": {"properties": [{k: v for k, v in p.items() if k in ("name", "type", "optional")} for p in props]}}
+    old = SPEC.special_optional
+    SPEC.special_optional = True
+    try:
+        return SPEC.valid(t, j)
+    finally:
+        SPEC.special_optional = old
+
+
+def absent_accepts(aid, k):
+    rc = special_absent_cases()[aid]
+    try:
+        rc.hook(removal_json(rc, rc.wires[k]), rc.root_cls)
+    except Exception as e:
+        _not_a_verdict(e)
+        return False
+    return True
 
 
 def removal_json(rc, wire):
